@@ -425,6 +425,14 @@ def evaluate(ctx, cases):
             ns0 = {o["name"]: o["default"] for o in OPT_TABLES[case["app"]]}
             ns0["config"] = spell(cfgfile, ("str", "rel", "dotted", "path")[len(case["config"]) % 4])
             saved = {k: v for k, v in st.SETTINGS.items()}
+            S0 = st.SETTINGS          # the container every evo module bound at import (`from evo.tools.settings import SETTINGS`)
+            import importlib
+            for mname in ("evo.main_ape", "evo.main_rpe", "evo.main_traj", "evo.main_res", "evo.common_ape_rpe",
+                          "evo.tools.plot", "evo.tools.file_interface", "evo.tools.log", "evo.tools.pandas_bridge"):
+                try:
+                    importlib.import_module(mname)
+                except Exception:  # noqa
+                    pass
             disk_before = Path(st.DEFAULT_PATH).read_bytes()
             fresh_before = dict(st.SettingsContainer.from_json_file(st.DEFAULT_PATH))
             try:
@@ -435,9 +443,18 @@ def evaluate(ctx, cases):
                     ctx.mismatch(case, "merge_config raised", type(e).__name__ + ": " + str(e)[:100], None)
                     continue
                 settings_after = {k: v for k, v in st.SETTINGS.items() if k != "__locked__"}
+                # "overrides matching package settings for that run": what every already imported evo module sees
+                stale = sorted(mn for mn, mod in list(sys.modules.items())
+                               if mn.startswith("evo.") and isinstance(getattr(mod, "SETTINGS", None), dict)
+                               and {k: v for k, v in mod.SETTINGS.items() if k != "__locked__"} != settings_after)
+                if stale:
+                    ctx.fail(case, "config-overrides-package-settings-for-the-run",
+                             f"after merge_config the SETTINGS seen by {stale[:4]} differ from evo.tools.settings.SETTINGS "
+                             f"(the -c overrides do not reach the modules that use them)")
                 # a second run without -c in this process re-parses its own arguments; a *new* run loads the file:
                 fresh = dict(st.SettingsContainer.from_json_file(st.DEFAULT_PATH))
             finally:
+                st.SETTINGS = S0
                 for k, v in saved.items():
                     dict.__setitem__(st.SETTINGS, k, v)
                 for k in [k for k in st.SETTINGS if k not in saved]:
